@@ -464,6 +464,12 @@ func (s *Server) cmdSearchArgs(
 		}
 	}
 
+	if lfs.obj == nil && !lfs.roam.on {
+		// an area type that is listed but has no parser (GEO)
+		err = errInvalidArgument(typ)
+		return
+	}
+
 	var clipRect geojson.Object
 	var tok, ltok string
 	for len(vs) > 0 {
